@@ -24,7 +24,8 @@ test(e1)
 test(e2, environment={'A': '1', 'B': '2', 'C': '3'})
 install(e1, e2, inc)
 pkg_config('p', version='1.0', includes=[inc], libs=[s, a], conflicts=[('foo', '>=1,<2,!=1.5,!=1.7'), ('bar', '>=1.0,!=1.0'),
-                                                                   ('baz', '<=2.0,!=2.0,>=2.0a1')])
+                                                                   ('baz', '<=2.0,!=2.0,>=2.0a1'),
+                                                                   ('qux', '>1.0'), ('qux', '>=1.0'), ('quux', '<3.0'), ('quux', '<=3.0')])
 multi = build_step(['gen/alpha/a.txt', 'gen/beta/b.txt', 'gen/gamma/c.txt', 'gen/delta/d.txt'],
                    cmd=['touch', 'gen/alpha/a.txt', 'gen/beta/b.txt', 'gen/gamma/c.txt', 'gen/delta/d.txt'])
 pre = [shared_library('prebuilt/%s/lib%s.so' % (d, d)) for d in ('one', 'two', 'three', 'four')]
